@@ -119,6 +119,51 @@ func corpus(o *hc.Out, dir string) {
 	for _, hk := range historyKinds {
 		historyRun(o, dir, hk, 600, 590, 20, text.LF, "history."+hk.name)
 	}
+	// ---- tables CREATED in the session: the export side prescribes the dialect, the import-side twins differ ----
+	crT := func() *table {
+		return tbl([]string{"k", "v"}, []cell{cS("r0"), cS("a\"b")}, []cell{cS("r1"), cS("")}, []cell{cS("r2"), cS("x y")})
+	}
+	for _, f := range []option.Format{option.CSV, option.TSV, option.LTSV, option.JSON, option.JSONL} {
+		for _, woh := range []bool{false, true} {
+			for _, asSel := range []bool{false, true} {
+				e := with(f, func(op *opts) {
+					op.withoutHeader = woh
+					op.lb = text.CRLF
+					op.encloseAll = !woh
+					op.delim = ';'
+					op.enc = text.UTF8M
+					op.pretty = f == option.JSON && woh
+				})
+				if f == option.TSV {
+					e.delim = '\t'
+				}
+				t := crT()
+				if f == option.LTSV {
+					t.rows[0][1] = cS("ab")
+				}
+				im := importSide{delim: '|', enc: text.SJIS, noHeader: !woh, format: option.LTSV}
+				if f == option.LTSV {
+					im.format = option.CSV
+				}
+				how := "insert"
+				if asSel {
+					how = "as_select"
+				}
+				id := "created." + fmtName(f) + ".without_header_" + b01(woh) + "." + how
+				createRun(o, dir, t, e, im, asSel, false, id)
+				createRun(o, dir, t, e, im, asSel, true, id+".csvq")
+			}
+		}
+	}
+	// ---- the first line break of a JSON Lines / JSON file right at the buffer boundaries of the readers ----
+	for _, first := range []int{2047, 2048, 4095, 4096, 4097, 8191, 8192} {
+		for _, lb := range []text.LineBreak{text.CRLF, text.LF} {
+			boundaryRun(o, dir, option.JSONL, first, lb, first%2 == 1, "boundary.jsonl."+lbName(lb)+".first_record_"+itoa(first))
+		}
+	}
+	for _, lb := range []text.LineBreak{text.CRLF, text.LF, text.CR} {
+		boundaryRun(o, dir, option.JSON, 4095, lb, true, "boundary.json."+lbName(lb)+".first_record_4095")
+	}
 	// ---- the dialect clause ----
 	dt := func() *table {
 		return tbl([]string{"k", "v"}, []cell{cS("r0"), cS("a")}, []cell{cS("r1"), cS("b")}, []cell{cS("r2"), cS("c")})
